@@ -92,8 +92,9 @@ PROFILES = {
 def intents_strategy(profile, max_ops):
     kinds = profile.kinds()
     small = st.integers(0, 11)
-    text = st.one_of(st.sampled_from(PHASES + BODIES), st.sampled_from(PHASES + BODIES), st.text(max_size=6), st.text(max_size=6),
-                     st.text(min_size=300, max_size=1500))   # now and then a long phase/body: delivered and stored unmodified
+    # (long phases/bodies are *constructed* from these short texts in the add intent: drawing them
+    # would overrun Hypothesis' 8 KB example buffer and silently shrink the number of valid examples)
+    text = st.one_of(st.sampled_from(PHASES + BODIES), st.text(max_size=6))
     mask = st.integers(0, 2 ** 16 - 1)
     intent = st.tuples(st.sampled_from(kinds), small, small, small, mask, text, text)
     return st.lists(intent, min_size=max(1, max_ops // 2), max_size=max_ops)
@@ -557,6 +558,10 @@ class Driver(object):
             self.do({"op": "send", "c": cid, "msg": {"type": "open", "mailbox": self.mb_choice(cs, b)}})
         elif kind == "add":
             msg = {"type": "add", "phase": t1, "body": t2}
+            if c == 10:
+                msg["body"] = (t2 or "x") * 400          # now and then a long body: delivered and stored unmodified
+            elif c == 11:
+                msg["phase"] = (t1 or "p") * 300
             if c % 3 == 0:
                 msg["id"] = "id%d" % b
             if p.forged and c % 4 == 1:
